@@ -98,6 +98,13 @@ func Gen(r *rand.Rand, tok string) string {
 		return rs(r, lower, 1+r.Intn(3)) + rs(r, "üñ日本語🏝㱋éß", 1+r.Intn(4)) + rs(r, lower, r.Intn(3))
 	case "<acct.digits>":
 		return rs(r, "0123456789", 1+r.Intn(6)) + rs(r, lower, r.Intn(3))
+	case "<acct.caps>":
+		// mixed case, sometimes ending in a fragment of the grammar ("ID", "CA")
+		return rs(r, lower, 1+r.Intn(4)) + rs(r, "ABCDEFGHIJKLMNOPQRSTUVWXYZ", 1+r.Intn(3)) + []string{"", "ID", "CA", "Id", "ID"}[r.Intn(5)]
+	case "<acct.keyword>":
+		// a word of the message grammar as (part of) the account name - no blanks, so still a legitimate name
+		w := []string{"ID", "CA", "serial", "from", "port", "ssh2", "invalid", "user", "root", "unknown", "for", "by"}[r.Intn(12)]
+		return []string{w, rs(r, lower, 1+r.Intn(3)) + w, w + rs(r, lower+"0123456789", 1+r.Intn(3))}[r.Intn(3)]
 	case "<addr.v4>":
 		return ipv4(r)
 	case "<addr.v6>":
@@ -243,6 +250,11 @@ func Gen(r *rand.Rand, tok string) string {
 		return strconv.Itoa(1 + r.Intn(4194304))
 	case "<pid.one>":
 		return "1"
+	case "<pid.max>":
+		return "4194304"
+	case "<pid.oct8>":
+		// leading zero followed by 8/9: a decimal numeral that is not a valid octal one
+		return "0" + rs(r, "89", 1) + rs(r, "0123456789", 1+r.Intn(3))
 	case "<pid.zero>":
 		return "0"
 	case "<pid.neg>":
